@@ -240,6 +240,27 @@ def recIsrnRelabelled (permx permy metric exS eyS exyS embxS embyS : String) : S
     (Recurrence.threshold (Recurrence.distCRP m ex' ey')
       (some (Recurrence.unitThr m ((rat? exyS).getD 0))))) (nx + ny + 1)
 
+/-- round 5: joint recurrence network (lag 0) at fixed recurrence rates; `kx`, `ky` are the
+order-statistic indices the source computes -/
+def recJointRateRelabelled (perm metric kxS kyS embxS embyS : String) : String :=
+  let idx := permFn (nats perm)
+  let ex := optV embxS; let ey := optV embyS; let n := ex.length
+  let m := recMetric metric
+  showAdj ((Recurrence.fixedRate (Recurrence.distRP m (rows n idx ex)) kxS.toNat!).bind fun Rx =>
+    (Recurrence.fixedRate (Recurrence.distRP m (rows n idx ey)) kyS.toNat!).bind fun Ry =>
+      Recurrence.hadamard Rx Ry) (n + 1)
+
+/-- round 5: inter-system recurrence network at fixed recurrence rates -/
+def recIsrnRateRelabelled (permx permy metric kxS kyS kxyS embxS embyS : String) : String :=
+  let idx := permFn (nats permx); let idy := permFn (nats permy)
+  let ex := optV embxS; let ey := optV embyS; let nx := ex.length; let ny := ey.length
+  let m := recMetric metric
+  let ex' := rows nx idx ex; let ey' := rows ny idy ey
+  showAdj ((Recurrence.fixedRate (Recurrence.distRP m ex') kxS.toNat!).bind fun Rx =>
+    (Recurrence.fixedRate (Recurrence.distRP m ey') kyS.toNat!).bind fun Ry =>
+      (Recurrence.fixedRate (Recurrence.distCRP m ex' ey') kxyS.toNat!).bind fun CR =>
+        Recurrence.isrm nx ny Rx Ry CR) (nx + ny + 1)
+
 end relabelled
 
 def answer (toks : List String) : String :=
@@ -254,6 +275,10 @@ def answer (toks : List String) : String :=
   | ["recjoint", perm, metric, ex, ey, embx, emby] => recJointRelabelled perm metric ex ey embx emby
   | ["recisrn", px, py, metric, ex, ey, exy, embx, emby] =>
       recIsrnRelabelled px py metric ex ey exy embx emby
+  | ["recjointrate", perm, metric, kx, ky, embx, emby] =>
+      recJointRateRelabelled perm metric kx ky embx emby
+  | ["recisrnrate", px, py, metric, kx, ky, kxy, embx, emby] =>
+      recIsrnRateRelabelled px py metric kx ky kxy embx emby
   | ["eval", n, adj, w, la0, g0, g1, dist, sig] => evalAll (mkGr n adj w la0 g0 g1 dist sig)
   | ["relabel", perm, n, adj, w, la0, g0, g1, dist, sig] =>
       let p := nats perm
